@@ -1,11 +1,11 @@
 #!/bin/sh
-# run every registered quick (or $1=thorough) check in sequence; logs under /verif/.out/runall
+# run every registered quick (or $1=thorough) check in sequence; logs under /verif/out/runall
 tier=${1:-quick}
-mkdir -p /verif/.out/runall
+mkdir -p /verif/out/runall
 for p in C01 C02 C03 C04 C05 C06 C07 C08 C09 C10 C11 C12 C13 C14 C15 C16 C17 C18 C19 C20; do
   s=$(date +%s)
-  ./check $p --tier $tier > /verif/.out/runall/$p.$tier.log 2>&1
+  ./check $p --tier $tier > /verif/out/runall/$p.$tier.log 2>&1
   rc=$?
   e=$(date +%s)
-  echo "$p rc=$rc $((e-s))s $(grep -c '^KNOWN-FINDING' /verif/.out/runall/$p.$tier.log) known; $(tail -1 /verif/.out/runall/$p.$tier.log | cut -c1-160)"
+  echo "$p rc=$rc $((e-s))s $(grep -c '^KNOWN-FINDING' /verif/out/runall/$p.$tier.log) known; $(tail -1 /verif/out/runall/$p.$tier.log | cut -c1-160)"
 done
